@@ -42,7 +42,7 @@ CHECKS = {
     "C10": ("DESIGN.md 2/C10", "+ and += raise for every ordered pair of different primitives and for any differing structural parameter "
             "(symbolic on both sides) or nested child; rejected merges leave operands unchanged.", ""),
     "C11": ("DESIGN.md 2/C11", "pickle round trip keeps content and equality and the clone stays live: symbolic continuation (2 fills, "
-            "merge) on clone and original agree, for 6 quantity kinds x 15 shapes; pre-pickle states are solver-chosen concretes (stated).", ""),
+            "merge) on clone and original agree, for 7 quantity kinds (incl. module globals whose names clash with histogrammar.util's) x 15 shapes; pre-pickle states are solver-chosen concretes (stated).", ""),
     "C12": ("DESIGN.md 2/C12", "For single-path trees up to depth 3, symbolic failure selectors (which record fails, at which level, by "
             "exception or wrong type): state unchanged by the failing call and final state equals that of the surviving records.", ""),
     "C13": ("DESIGN.md 2/C13", "num_bins / bin_edges / bin_centers / bin_entries mutually consistent for symbolic sub-ranges, contiguous "
@@ -54,7 +54,7 @@ CHECKS = {
     "C16": ("DESIGN.md 2/C16", "One object installed at two symbolic positions of 12 skeletons is rejected with ContainerException before "
             "any state change, on first and later fills; trees sharing only never-filled templates are accepted.", ""),
     "C17": ("DESIGN.md 2/C17", "All application orders of named/cached/serializable give equal wrappers; cached functions return f(args) "
-            "for 3-6 calls with symbolic arguments; 20 string expressions equal their Python functions on symbolic records.", ""),
+            "for 3-6 calls with symbolic arguments; 23 string expressions (3 using fields from a nested scope) equal their Python functions on symbolic records.", ""),
 }
 
 NA = {
